@@ -127,6 +127,7 @@ class LineInjector:
     which points exist ('record').  Only points at which CPython (3.12) can really run a signal handler are used:
       call|file:func:firstline   entry of a Python function (the RESUME check)
       cret|file:line:name        right after a C function called from that line returned (the check after a call)
+      xcall|file:line:name       entry of a Python function of another module (threading, multiprocessing, ...) called from that line
     (an exception raised by a settrace LINE callback is not a faithful stand-in: it can bypass the frame's own
     try blocks; backward-jump check points are therefore only covered by the wall-clock deliveries)
     A handler never runs in the middle of other instructions, so e.g. the exit of a `with lock:` block is atomic."""
@@ -183,6 +184,10 @@ class LineInjector:
             return
         code = frame.f_code
         if not code.co_filename.endswith(self.suffixes):
+            # a function of another module (threading, multiprocessing, tqdm, ...) entered directly from a line of the library
+            back = frame.f_back
+            if event == 'call' and back is not None and back.f_code.co_filename.endswith(self.suffixes):
+                self._point(f"xcall|{self._rel(back.f_code)}:{back.f_lineno}:{code.co_name}")
             return
         if event == 'call':
             self._point(f"call|{self._rel(code)}:{code.co_name}:{code.co_firstlineno}")
@@ -304,6 +309,14 @@ def run_call(pool, call, res):
                 has_cb, has_ecb = j.get('cbs', [True, True])
                 asyncs.append(pool.apply_async(func, tuple(j.get('args', ())), j.get('kwargs'), callback=cb if has_cb else None,
                                                error_callback=ecb if has_ecb else None, **kw))
+            if call.get('fire_and_forget'):
+                # the tasks are still in flight when the next call starts; they are collected by that call's stop_and_join
+                out['value'] = None
+                out['outcome'] = 'ok'
+                out['call_over'] = True
+                out['wall'] = time.time() - t0
+                res['calls'].append(out)
+                return out
             if call.get('join_first'):
                 pool.stop_and_join()
             vals = []
